@@ -42,6 +42,9 @@ def yaml_node_configs() -> List[Tuple[str, dict]]:
         out.append((f"shorthand:{spec}", {"processor": spec}))
     for proc in ("VProbe", "VGainProbe", "VTwoProbe"):
         out.append((f"slice-probe:{proc}", {"processor": f"slice:{proc}:FloatDataCollection", "context_key": "r"}))
+    # IO components whose data side is NoDataType
+    for proc in ("VTriggerSrc", "VCtxOnlyPaySrc", "VNullSink", "VNullPaySink"):
+        out.append((f"nodata:{proc}", {"processor": proc}))
     # context-key-bound variants (a subclass generated per output key) and keyword-only parameters
     for key in ("fit_coefficients", "fit.coefficients", "k", "a[0]"):
         out.append((f"ctxkey:ModelFitting->{key}", {"processor": "ModelFittingContextProcessor",
